@@ -73,6 +73,41 @@ theorem chunk_crc_damage_detected (crc : Crc) (enc : UInt8) (data pre post c1 c2
   simp at this
   exact hxy this
 
+/-! ## The chunk writer (`WriteChunks` with segment cutting) -/
+
+/-- A stored chunk is what `ChunkOrIterable` returns for its reference. -/
+theorem stored_read (crc : Crc) (segs : List Bytes) (ref : Nat) (c : Chunk) (h : Stored crc segs ref c)
+    (hsegs : segs.length ≤ 4294967296) (hlen : ∀ s ∈ segs, s.length < 4294967296) :
+    readChunk crc segs ref = if validEnc c.1 then .ok c else .error .badEncoding := by
+  obtain ⟨sgm, pre, post, hs, hr, hl⟩ := h
+  have hlt : sgm < segs.length := (List.getElem?_eq_some_iff.mp hs).1
+  have hpl := hlen _ (List.mem_of_getElem? hs)
+  simp only [List.length_append] at hpl
+  subst hr
+  unfold readChunk
+  have e1 : (sgm * 4294967296 + pre.length) / 4294967296 % 4294967296 = sgm := by omega
+  have e2 : (sgm * 4294967296 + pre.length) % 4294967296 = pre.length := by omega
+  simp only [e1, e2, hs]
+  have := chunk_record_roundtrip crc c.1 c.2 pre post hl
+  rw [this]
+
+
+/-- `WriteChunks` followed by `ChunkOrIterable`: every chunk handed to one call comes back under the
+    reference the call assigned, whatever the batching cut (any segment size), and chunks written
+    by earlier calls stay readable (`writeChunks_spec` keeps `Stored`). -/
+theorem chunks_written_read_back (crc : Crc) (w w' : CW) (chks : List Chunk) (refs : List Nat)
+    (hinv : w.n ≠ 0 → CWInv w) (h : w.writeChunks crc chks = .ok (w', refs))
+    (hsegs : w'.segs.length ≤ 4294967296) (hlen : ∀ s ∈ w'.segs, s.length < 4294967296) :
+    refs.length = chks.length ∧
+    ∀ (i : Nat) (c : Chunk) (ref : Nat), chks[i]? = some c → refs[i]? = some ref →
+      readChunk crc w'.segs ref = if validEnc c.1 then .ok c else .error .badEncoding := by
+  obtain ⟨_, _, h3, h4⟩ := writeChunks_spec crc w w' chks refs hinv h
+  exact ⟨h3, fun i c ref hc hr => stored_read crc w'.segs ref c (h4 i c ref hc hr) hsegs hlen⟩
+
+example : ((⟨64, 0, []⟩ : CW).writeChunks (fun _ => 7) [(1, [1, 2, 3]), (2, List.replicate 60 0), (3, [])]).map
+    (fun r => (r.2, r.1.segs.length)) = .ok ([8, 4294967304, 8589934600], 3) := by
+  rfl
+
 /-! ## Series entries -/
 
 /-- What `AddSeries` accepts at the byte level: symbol references are `uint32` and resolvable, counts
